@@ -51,6 +51,32 @@ DEFAULT_CALL_PATTERNS = [
 ]
 
 
+def demangle_nested(m):
+    """Components of an Itanium nested name (_ZN[K]<len><id>...E...), or of a plain _Z<len><id>; None otherwise."""
+    mm = re.match(r'_ZN[KVrO]*', m)
+    if mm:
+        i, out = mm.end(), []
+        while i < len(m):
+            d = re.match(r'\d+', m[i:])
+            if d:
+                ln = int(d.group(0))
+                i += len(d.group(0))
+                out.append(m[i:i + ln])
+                i += ln
+            elif m[i] == 'I':
+                return None       # template arguments: not needed for the classes we translate
+            elif m[i] == 'L':     # internal linkage marker
+                i += 1
+            else:
+                break
+        return out
+    mm = re.match(r'_Z[L]?(\d+)', m)
+    if mm:
+        ln = int(mm.group(1))
+        return [m[mm.end():mm.end() + ln]]
+    return None
+
+
 def norm(q):
     q = q.replace('(anonymous namespace)::', '')
     q = NS_STRIP.sub('', q)
@@ -76,15 +102,20 @@ def split_top(s, sep=','):
 
 
 class CT:
-    """A lowered type: C base text, pointer depth, whether the C++ type was a reference."""
+    """A lowered type: C base text, pointer depth, whether the C++ type was a reference, array dimensions."""
 
-    def __init__(self, base, ptr=0, ref=False, const=False, cxx=''):
-        self.base, self.ptr, self.ref, self.const, self.cxx = base, ptr, ref, const, cxx
+    def __init__(self, base, ptr=0, ref=False, const=False, cxx='', dims=()):
+        self.base, self.ptr, self.ref, self.const, self.cxx, self.dims = base, ptr, ref, const, cxx, tuple(dims)
 
     def c(self, extra_ptr=0):
+        if self.dims and not self.ref:
+            # an array type used as a value type decays to a pointer to its element
+            return self.base + ' ' + '*' * (self.ptr + extra_ptr + 1)
         return self.base + ' ' + '*' * (self.ptr + extra_ptr + (1 if self.ref else 0))
 
     def decl(self, name):
+        if self.dims and not self.ref:
+            return (self.base + ' ' + '*' * self.ptr + name + ''.join('[%s]' % d for d in self.dims)).replace('  ', ' ')
         return (self.c() + name).replace('  ', ' ')
 
 
@@ -169,8 +200,12 @@ class Translator:
             if old is None or ('inner' in n and 'inner' not in old):
                 self.decls[n['id']] = n
             q = '::'.join(path + [name]) if name else '::'.join(path)
-            if top_filter and not path and name and top_filter.endswith(name) and '::' in top_filter:
-                q = top_filter
+            if not path and name and n.get('mangledName'):
+                comps = demangle_nested(n['mangledName'])
+                if comps and len(comps) >= 2:
+                    comps = [c for c in comps if c not in ('llbuild', 'core', 'basic', 'buildsystem', 'ninja', 'commands', '_GLOBAL__N_1', 'llvm', 'sys')]
+                    if comps and (comps[-1] == name or k == 'CXXConstructorDecl'):
+                        q = '::'.join(comps if comps[-1] == name else comps + [name])
             self.qname[n['id']] = q
             if parent:
                 self.parent[n['id']] = parent
@@ -200,11 +235,14 @@ class Translator:
             cands = [d for d in cands if len(self.params_of(d)) == nparams]
         if ptypes is not None:
             cands = [d for d in cands if [norm(p['type']['qualType']) for p in self.params_of(d)] == ptypes]
-        # dedupe by id
+        # dedupe by id and by source location (the same declaration seen through two dumps)
         seen, out = set(), []
         for d in cands:
-            if d['id'] not in seen:
+            loc = d.get('loc', {})
+            key = (loc.get('file'), loc.get('line'), loc.get('col'), d.get('name'))
+            if d['id'] not in seen and (key[0] is None or key not in seen):
                 seen.add(d['id'])
+                seen.add(key)
                 out.append(d)
         return out
 
@@ -233,6 +271,13 @@ class Translator:
             ref = True
         ptr = 0
         const = False
+        dims = []
+        while True:
+            m = re.search(r'\[(\d+)\]$', q.strip())
+            if not m:
+                break
+            dims.insert(0, m.group(1))
+            q = q.strip()[:m.start()]
         while True:
             q = q.strip()
             if q.endswith('*const'):
@@ -260,7 +305,7 @@ class Translator:
             base = base[:-1].strip()
             ptr += 1
         cq = ('const ' if const and ptr and base in ('char', 'void', 'unsigned char', 'uint8_t') else '')
-        return CT(cq + base, ptr, ref, const, q)
+        return CT(cq + base, ptr, ref, const, q, dims)
 
     def base_type(self, q, desugared=None):
         if q in self.types:
@@ -465,7 +510,7 @@ class Translator:
         self.contract = contract or {}
         self.locals = [{}]
         self.defers = [[]]
-        is_method = d['kind'] in ('CXXMethodDecl', 'CXXConstructorDecl', 'CXXConversionDecl') and d.get('storageClass') != 'static'
+        is_method = d['kind'] in ('CXXMethodDecl', 'CXXConstructorDecl', 'CXXConversionDecl') and not self.is_static_method(d)
         fq = self.qt(d)
         m = re.match(r'(.*?)\s*\(', fq)
         ret = self.ctype(m.group(1)) if d['kind'] != 'CXXConstructorDecl' else CT('void')
@@ -521,6 +566,21 @@ class Translator:
             else:
                 raise Unsupported('ctor initializer %r' % c.get('anyInit', c.get('baseInit')))
         return out
+
+    static_methods = set()
+
+    def is_static_method(self, d):
+        if d.get('storageClass') == 'static' or d['id'] in self.static_methods:
+            return True
+        prev = self.decls.get(d.get('previousDecl'))
+        if prev is not None and prev.get('storageClass') == 'static':
+            return True
+        # the in-class declaration may live in another dump: look it up by qualified name
+        q = self.qname.get(d['id'])
+        for dd in self.byname.get(q, []):
+            if dd.get('storageClass') == 'static' and dd.get('kind') == 'CXXMethodDecl':
+                return True
+        return False
 
     def class_of(self, d):
         pid = self.parent.get(d['id'])
@@ -734,10 +794,61 @@ class Translator:
         if s.get('kind') in ('CXXConstructExpr',) and not s.get('inner'):
             b = self.lookup_binding(['c:%s()' % self.objtype(s), 'c:%s()' % (self.objtype_desugared(s) or '?')])
             if b is None:
+                # default construction without a model: the object is left unconstrained (the most general
+                # value) except for the in-class member initialisers of its record, which are applied
+                out = '%s;\n' % t.decl(name)
                 if t.ptr == 0 and t.base.startswith('struct '):
-                    return '%s = {0};\n' % t.decl(name)
-                return '%s;\n' % t.decl(name)
+                    out += self.inclass_inits(name, s, t)
+                return out
         return '%s = %s;\n' % (t.decl(name), self.value_expr(init, t))
+
+    def inclass_inits(self, lhs, ctor_node, t):
+        """Apply the in-class member initialisers of t's record to the object lhs."""
+        out = ''
+        d = None
+        for q in (t.cxx, norm((ctor_node or {}).get('type', {}).get('desugaredQualType', '') or '')):
+            d = self.record_decl(q)
+            if d is not None:
+                break
+        if d is None:
+            return out
+        for c in d.get('inner', []):
+            if c.get('kind') == 'FieldDecl' and c.get('hasInClassInitializer'):
+                ft = self.ctype(c['type']['qualType'], c['type'].get('desugaredQualType'))
+                self.add_field(t.base[7:], c['name'], ft)
+                exprs = [x for x in c.get('inner', []) if not x.get('kind', '').endswith('Comment')]
+                init = exprs[0] if exprs else None
+                out += self.init_member('%s.%s' % (lhs, c['name']), ft, init)
+        return out
+
+    def init_member(self, lhs, ft, init):
+        core = self.strip(init) if init else None
+        if ft.dims:
+            if core is None or (core.get('kind') in ('InitListExpr', 'ImplicitValueInitExpr') and
+                                all(self.const_value(x) in (0, None) for x in core.get('inner', []))):
+                return '__builtin_memset(&%s, 0, sizeof(%s));\n' % (lhs, lhs)
+            raise Unsupported('array initialiser of %s' % lhs)
+        if ft.ptr == 0 and ft.base.startswith('struct '):
+            if core is None or core.get('kind') in ('InitListExpr', 'CXXConstructExpr'):
+                kids = (core or {}).get('inner', [])
+                if all(k.get('kind') in ('CXXDefaultInitExpr', 'ImplicitValueInitExpr') for k in kids):
+                    # value-initialisation / default member initialisers of the nested record
+                    out = ''
+                    if not kids and core is not None and core.get('kind') == 'InitListExpr':
+                        out += '__builtin_memset(&%s, 0, sizeof(%s));\n' % (lhs, lhs)
+                    return out + self.inclass_inits(lhs, core, ft)
+            raise Unsupported('record initialiser of %s' % lhs)
+        return '%s = %s;\n' % (lhs, self.expr(init))
+
+    def record_decl(self, q):
+        if not q:
+            return None
+        for qn, lst in self.byname.items():
+            if qn == q or qn.endswith('::' + q) or q.endswith('::' + qn):
+                for d in lst:
+                    if d['kind'] == 'CXXRecordDecl' and d.get('completeDefinition'):
+                        return d
+        return None
 
     def vardecl_hook(self, v):
         return None
@@ -1002,11 +1113,64 @@ class Translator:
         pass
 
     def base_cast(self, n, s):
+        """Derived-to-base conversion.  When the derived record is known, the base sub-object is the embedded
+        first member `__base` (single, non-virtual inheritance); otherwise a pointer cast."""
         e = self.expr(s)
         t = self.ntype(n)
+        if self.strip_keep_mat(s).get('kind') == 'MaterializeTemporaryExpr' and self.ntype(s).ptr == 0:
+            e = '(*%s)' % self.temp_addr(s, e)      # the temporary object needs an address
+        if n.get('castKind') in ('DerivedToBase', 'UncheckedDerivedToBase'):
+            path = None
+            for derived in (self.objtype(s), self.objtype_desugared(s)):
+                if derived and path is None:
+                    path = self.base_path(derived, t.cxx if t.cxx else self.objtype(n))
+            if path is not None:
+                if self.is_glvalue(n) and t.ptr == 0:
+                    return '(%s)%s' % (e, ''.join('.__base' for _ in path))
+                return '(&(%s)->__base%s)' % (e, ''.join('.__base' for _ in path[1:]))
         if self.is_glvalue(n) and t.ptr == 0:
             return '(*(%s*)%s)' % (t.c().strip(), self.addr(e))
         return '((%s)%s)' % (t.c().strip(), e)
+
+    def bases_of(self, cls):
+        d = self.record_decl(cls)
+        if d is None:
+            return None
+        return [norm(b['type']['qualType']) for b in d.get('bases', [])]
+
+    def base_path(self, derived, base):
+        """list of records from derived (exclusive) down to base (inclusive) along first bases, or None."""
+        path, cur = [], derived
+        for _ in range(8):
+            bs = self.bases_of(cur)
+            if not bs:
+                return None
+            if len(bs) != 1:
+                return None if base not in bs or bs[0] != base else path + [base]
+            path.append(bs[0])
+            if bs[0] == base or bs[0].endswith('::' + base) or base.endswith('::' + bs[0]):
+                self.embed_base(derived, path)
+                return path
+            cur = bs[0]
+        return None
+
+    def embed_base(self, derived, path):
+        cur = derived
+        for b in path:
+            sname = self.base_type(norm(cur))
+            bname = self.base_type(norm(b))
+            if sname and bname and sname.startswith('struct ') and bname.startswith('struct '):
+                st = self.structs.setdefault(sname[7:], {})
+                if sname[7:] not in self.struct_order:
+                    self.struct_order.append(sname[7:])
+                if '__base' not in st:
+                    # keep the base sub-object first
+                    items = list(st.items())
+                    st.clear()
+                    st['__base'] = CT(bname, cxx=norm(b))
+                    for k, v in items:
+                        st[k] = v
+            cur = b
 
     def e_CStyleCastExpr(self, n):
         ck = n.get('castKind')
@@ -1026,7 +1190,26 @@ class Translator:
 
     def e_InitListExpr(self, n):
         t = self.ntype(n)
-        items = [self.expr(c) for c in n.get('inner', [])]
+        kids = n.get('inner', [])
+        if any(c.get('kind') == 'CXXDefaultInitExpr' for c in kids):
+            # clang's JSON omits the expression: take the in-class initialiser of the field at that position
+            rd = self.record_decl(t.cxx) or self.record_decl(norm(n.get('type', {}).get('desugaredQualType', '') or ''))
+            fdecls = [c for c in (rd or {}).get('inner', []) if c.get('kind') == 'FieldDecl']
+            fixed = []
+            for i, c in enumerate(kids):
+                if c.get('kind') == 'CXXDefaultInitExpr':
+                    if i >= len(fdecls):
+                        raise Unsupported('default member initializer without record definition')
+                    ex = [x for x in fdecls[i].get('inner', []) if not x.get('kind', '').endswith('Comment')]
+                    if not ex:
+                        raise Unsupported('default member initializer of %s not found' % fdecls[i].get('name'))
+                    fixed.append(ex[0])
+                else:
+                    fixed.append(c)
+            kids = fixed
+        items = [self.expr(c) for c in kids]
+        if t.dims:
+            return '{%s}' % ', '.join(items or ['0'])
         if t.base.startswith('struct ') and t.ptr == 0:
             # positional initialisation: needs the record's field order
             fields = self.record_fields(t)
@@ -1211,8 +1394,11 @@ class Translator:
     def function_by_name(self, name, r):
         sig = norm(r.get('type', {}).get('qualType', '')).replace(' ', '')
         cands = [d for d in self.find_function(name)
-                 if (d['kind'] == 'FunctionDecl' or (d['kind'] == 'CXXMethodDecl' and d.get('storageClass') == 'static'))
+                 if (d['kind'] == 'FunctionDecl' or (d['kind'] == 'CXXMethodDecl' and (self.is_static_method(d) or r.get('kind') == 'CXXMethodDecl')))
                  and self.in_repo(d) and norm(self.qt(d)).replace(' ', '') == sig]
+        for d in cands:
+            if d['kind'] == 'CXXMethodDecl':
+                self.static_methods.add(d['id'])
         return cands[0] if len(cands) >= 1 else None
 
     def in_repo(self, d):
@@ -1260,7 +1446,12 @@ class Translator:
                 obj = otext if me.get('isArrow') else self.addr(otext)
                 return self.apply_binding(b, n, obj, None, argnodes)
         otext = self.expr(objn)
-        obj = otext if me.get('isArrow') else self.addr(otext)
+        if me.get('isArrow'):
+            obj = otext
+        elif self.strip_keep_mat(objn).get('kind') == 'MaterializeTemporaryExpr' or not self.is_glvalue(objn):
+            obj = self.temp_addr(objn, otext)       # method call on a temporary object
+        else:
+            obj = self.addr(otext)
         # a /repo method we can translate?
         d = self.resolve_method(me, objn, name, len([a for a in argnodes]))
         if d is not None:
@@ -1352,6 +1543,8 @@ class Translator:
                     cs = [c for c in self.find_function('%s::%s' % (cls, opname)) if self.in_repo(c)]
                     cs = [c for c in cs if len(self.params_of(c)) + (1 if c['kind'] == 'CXXMethodDecl' else 0) == len(argnodes)]
                     d = cs[0] if len(cs) == 1 else None
+        if d is not None and d.get('isImplicit') and op == '=':
+            d = None        # compiler-generated member-wise assignment: plain C struct assignment below
         if d is not None and self.body_of(d) is not None and self.in_repo(d):
             qual = '%s::op_%s' % (self.objtype(a0), self.OPNAMES.get(op, 'x'))
             cn = self.queue(d, qual)
@@ -1468,7 +1661,20 @@ class Translator:
                 raise Unsupported('too many transitive callees')
         return self.emit()
 
+    def complete_structs(self):
+        """Records named in 'full_structs' get every declared field (so that contracts can state that untouched
+        fields are preserved), in declaration order."""
+        for q in self.u.get('full_structs', []):
+            d = self.record_decl(q)
+            if d is None:
+                raise astdump.ExtractionError('record %s not found for full_structs' % q)
+            sname = self.base_type(norm(q))
+            for c in d.get('inner', []):
+                if c.get('kind') == 'FieldDecl':
+                    self.add_field(sname[7:], c['name'], self.ctype(c['type']['qualType'], c['type'].get('desugaredQualType')))
+
     def emit(self):
+        self.complete_structs()
         out = ['/* generated by cxx2c from %s -- do not edit */' % self.source]
         out.append(self.u.get('prelude', ''))
         for en, (under, vals) in self.enums.items():
